@@ -3789,7 +3789,9 @@ class Network(Cached):
             #  If the component has size 1, set random walk betweenness to zero
             # FIXME: check why there was a problem with ==1
             if len(comp) < 2:
-                nsi_newman_betweenness[comp[0]] = 0
+                #  (only the local ends term (2 W - k) k = w^2 remains)
+                nsi_newman_betweenness[comp[0]] = \
+                    self.node_weights[comp[0]] ** 2 if add_local_ends else 0
             #  For larger components, continue with the calculation
             else:
                 #  Get the subgraph corresponding to component i
